@@ -345,6 +345,14 @@ ExecNode(cx, st0, n, line) ==
     [] n.t = "xexpand" ->
          [st0 EXCEPT !.ws = Append(@, Writer0), !.k = Append(@, SeqF(n.body, "xexpand", line, line, <<>>))]
     \* lqx_fail: Context.Errorf
+    \* lqx_loopidx: a tag that reads the loop state through Context.Get("forloop") - "index/length" inside a loop,
+    \* "-" outside
+    [] n.t = "xloopidx" ->
+         LET fl == Lookup(st0.env, B_forloop) IN
+           IF fl.k = "map" /\ MapHas(fl, B_index) /\ MapHas(fl, B_length) /\ MapGet(fl, B_index).k = "int" /\ MapGet(fl, B_length).k = "int"
+           THEN IoCheck(cx, TwWrite(cx, st0, IntText(MapGet(fl, B_index).v) \o <<47>> \o IntText(MapGet(fl, B_length).v)), line)
+           ELSE IF IsNil(fl) THEN IoCheck(cx, TwWrite(cx, st0, <<45>>), line)
+           ELSE Undecided(st0)
     [] n.t = "xfail" -> Fail(cx, st0, line, "ext")
     \* lqx_sub: a tag whose own work fails somewhere else (it renders another template and wraps that render's error,
     \* which carries a location of its own): the failure is located at this tag
